@@ -248,6 +248,17 @@ impl Check for C05 {
                 Err(_) => out.probes.hit("history:decoy_write_panicked"),
             }
         }
+        // ---- history step (1 run in 6): a different, small library went through to_string, save and open at the same
+        // paths earlier on this thread (outcome not judged)
+        if wt.draw(6) == 0 {
+            fs.put(TMP, b"VERSION 5.8 ;\nMACRO an_earlier_macro\n  SIZE 2 BY 3 ;\nEND an_earlier_macro\nEND LIBRARY\n".to_vec());
+            if let Ok(Ok(other)) = guard(|| LefLibrary::open(fs.sp(TMP))) {
+                let _ = guard(|| other.to_string());
+                let _ = guard(|| other.save(fs.sp(OUT)));
+                let _ = guard(|| LefLibrary::open(fs.sp(OUT)));
+                out.probes.hit("history:another_library_written_and_read_at_the_same_paths_first");
+            }
+        }
         // ---- fault-free: to_string and save must succeed and read back equal
         let s0 = match guard(|| lib.to_string()) {
             Err(p) => {
